@@ -633,6 +633,11 @@ def parse_pops(s):
 
 
 def c08_promote_oracle(line, res):
+    _LAST["promote"] = line
+    return c08_promote_oracle1(line, res)
+
+
+def c08_promote_oracle1(line, res):
     """the property on what cacheCtl.Get served, whichever backend it came from: the answer was stored for this key
     (by this proxy: op s, or by another instance sharing the redis: op r); it is not served at fetch + lifetime + 2 s
     or later - in particular not because it was copied into the memory cache late in its life; served TTLs <= max 1
@@ -876,7 +881,8 @@ PROPS["C08"] = dict(
              compare=retrying_compare("storeat", c08_storeat_oracle1),
              classify=c08_storeat_classify, shards=4,
              nontrivial=lambda l, r: "H" in r or "M" in r, timeout=600),
-        dict(name="promote", gen=c08_promote_gen, oracle=c08_promote_oracle, classify=c08_promote_classify, model=False,
+        dict(name="promote", gen=c08_promote_gen, oracle=c08_promote_oracle, classify=c08_promote_classify,
+             compare=retrying_compare("promote", c08_promote_oracle1),
              nontrivial=lambda l, r: "H" in r, timeout=900),
     ],
     rule="policy: the real initCache + cacheCtl.Store on a real MemoryCache, read back with cacheCtl.Get: every rcode 0..15 "
